@@ -17,12 +17,15 @@ loc_block (loc + block-comment lines), struct_loc/struct_phys (rs: struct item o
 """
 from __future__ import annotations
 
-COUNTED = {"pub", "async", "static", "classmethod", "public", "assoc"}
+COUNTED = {"pub", "async", "static", "classmethod", "public", "assoc", "quoted", "numeric", "computed", "generator"}
 NOT_COUNTED = {"priv", "dunder", "prop", "ctor"}
 KINDS = {
     "py": {"counted": ["pub", "async", "static", "classmethod"], "other": ["priv", "dunder", "prop"]},
-    "ts": {"counted": ["pub", "async", "static", "public"], "other": ["priv", "ctor"]},
-    "js": {"counted": ["pub", "async", "static"], "other": ["priv", "ctor"]},
+    # quoted / numeric / computed / generator: public methods whose name is not a plain identifier (`'act-1'()`, `7()`,
+    # `[key]()`, `*act()`); TS `private` / `#name` / accessors are not generated: the docs define "private" for
+    # TypeScript by the underscore prefix only, so whether those count is not stated
+    "ts": {"counted": ["pub", "async", "static", "public", "quoted", "numeric", "computed", "generator"], "other": ["priv", "ctor"]},
+    "js": {"counted": ["pub", "async", "static", "quoted", "numeric", "computed", "generator"], "other": ["priv", "ctor"]},
     "rs": {"counted": ["pub", "async", "assoc"], "other": ["priv"]},
 }
 DUNDERS = ["__init__", "__str__", "__repr__", "__len__", "__hash__", "__bool__"]
@@ -163,6 +166,14 @@ def _ts_member(out, ind, mem, i, lang):
         head = f"async act_{i}()"
     elif k == "public":
         head = f"public act_{i}()"
+    elif k == "quoted":
+        head = f"'act-{i}'()"
+    elif k == "numeric":
+        head = f"{700 + i}()"
+    elif k == "computed":
+        head = f"[KEY_{i}]()"
+    elif k == "generator":
+        head = f"*act_{i}()"
     else:
         head = f"act_{i}()"
     if n == 0:
